@@ -58,6 +58,10 @@ CLAIMED = {
          'Symbolic execution of the real cacheNode (TakeCtx/TakeWithExpireCtx/doTake/doGetCache/processCache/setCacheWithNotFound/SetWithExpireCtx/SetCtx/DelCtx), mathx.Unstable.AroundDuration (jitter arithmetic in the E2 float relaxation, random draw symbolic) and the SingleFlight barrier against the Redis model: one cached read from an arbitrary coherent (cache, database) state with symbolic TTL/clock, database failure and a store failure at a symbolic call index; TTL windows (+/-5%, rounded up, >= 1 s, never persistent); writes and invalidation; two concurrent readers under every interleaving (one query in flight, shared result).',
          'go/ssa translation, gosym, z3, Redis model (trusted; Go-level GET/SET EX/SETNX EX/DEL glue of core/stores/redis replaced by the model); jsonx replaced by a token table; expiry in {1 s, 10 s, 7 d}; cache statistics and the retry cleaner\'s timing wheel stubbed; sqlc.CachedConn (ExecCtx/QueryRowIndexCtx) and the multi-node cacheCluster dispatch are not covered.',
          'SSA symbolic execution + SMT (z3) over a Redis model, one-step check from an arbitrary coherent state + scheduler for the 2-reader flight'),
+ 'C09': ('DESIGN.md §4 C09',
+         'Symbolic execution of the real patRouter.Handle/ServeHTTP/methodsAllowed, search.Tree Add/Search/next, pathvar and path.Clean: concrete route tables (literal/variable siblings, shared prefixes, backtracking, several methods) x request paths of 0..3 (quick) / 0..4 (thorough) segments whose bytes are solver variables (every ASCII byte but the slash) x method, against a reference matcher (literal preferred at the first differing segment, exact bindings, 405 with exactly the other matching methods, 404); concrete dirty spellings for path cleaning; registration errors.',
+         'go/ssa translation, gosym, z3; 10 tables of 3 routes, segments of 1..2 bytes, bytes < 0x80 (range over string is byte-wise for ASCII), one variable name per position; map iteration order explored as a decision; custom NotFound/NotAllowed handlers not covered.',
+         'SSA symbolic execution + SMT (z3) with symbolic path bytes; differential against a reference matcher'),
 }
 
 NA = {
